@@ -328,3 +328,71 @@ def _p(x):
 
 
 FSMON = FsMonitor()
+
+
+# --------------------------------------------------------------------------
+# cache-eviction buggify
+# --------------------------------------------------------------------------
+class EvictSeam:
+    """Wraps PDFDocument.getobj / PDFResourceManager.get_font: on a scheduled coin flip the relevant
+    cache entry is dropped before delegating (legal: caching is declared transparent)."""
+
+    def __init__(self):
+        self.coins = None  # list of 0/1 consumed cyclically, or None = never evict
+        self.i = 0
+        self.evictions = 0
+        self.installed = False
+
+    def flip(self):
+        c = self.coins
+        if not c:
+            return False
+        v = c[self.i % len(c)]
+        self.i += 1
+        return bool(v)
+
+    def set(self, coins):
+        self.coins = coins
+        self.i = 0
+
+    def install(self):
+        if self.installed:
+            return
+        from pdfminer.pdfdocument import PDFDocument
+        from pdfminer.pdfinterp import PDFResourceManager
+
+        seam = self
+        orig_getobj = PDFDocument.getobj
+        orig_getfont = PDFResourceManager.get_font
+
+        def getobj(self, objid):
+            if seam.coins and seam.flip():
+                if self._cached_objs.pop(objid, None) is not None:
+                    seam.evictions += 1
+                if seam.flip():
+                    if self._parsed_objs:
+                        seam.evictions += 1
+                    self._parsed_objs.clear()
+            return orig_getobj(self, objid)
+
+        def get_font(self, objid, spec):
+            if seam.coins and seam.flip():
+                if self._cached_fonts.pop(objid, None) is not None:
+                    seam.evictions += 1
+            return orig_getfont(self, objid, spec)
+
+        PDFDocument.getobj = getobj
+        PDFResourceManager.get_font = get_font
+        self.installed = True
+
+
+EVICT = EvictSeam()
+
+
+def draw_evict(tape, label="evict"):
+    """Draw an eviction schedule: None (never) or a cyclic coin list."""
+    k = tape.draw(4, label + ".mode")
+    if k <= 1:
+        return None
+    p = 20 if k == 2 else 60
+    return [1 if tape.coin(p, 100, label + ".coin") else 0 for _ in range(16)]
